@@ -377,8 +377,8 @@ def _chain_body(case, R, mspec, model, grid, g, lev, rng, is_copula):
         origin_state = tuple([0] * d)
         states = list(want)
     lam = sum(want.values())
-    if lam <= 0:
-        R.skip("zero-intensity")
+    if lam < 1e-9:
+        R.skip("chain intensity below 1e-9: cell masses under the resolution of the closed forms")
         return
     order = sorted(want)
     target = np.array([max(want[s], 0.0) / lam for s in order])
